@@ -210,6 +210,7 @@ SIGMA_RULE = [
     "# a",
     "## a",
     "### a",
+    "#### a",
     "# a #",
     "#a",
     "#  a",
@@ -466,6 +467,27 @@ def inline_wide_space(k, contexts, commonmark_only=False):
     ]
 
 
+SIGMA_EMPH = ["*", "_", "a", " "]
+SIGMA_BRACKET = ["[", "]", "(", ")", "a", "!", "/u"]
+# line alphabet for the application-level checks: heading ladders, setext shapes, list ladders,
+# hard breaks - the constructs whose *sequences* (not single occurrences) rules reason about
+SIGMA_MIX = ["", "a", "# a", "## a", "### a", "#### a", "a   ", "===", "---", "- a", "  - a", "1. a"]
+
+
+def focus_spaces(tier):
+    """deep, narrow inline spaces: emphasis delimiter runs and bracket structures"""
+    e, b = (9, 7) if tier == "thorough" else (7, 5)
+    return [
+        ProductSpace(f"E({e})", SIGMA_EMPH, e, joiner=""),
+        ProductSpace(f"Br({b})", SIGMA_BRACKET, b, joiner=""),
+        ProductSpace(f"Br({b})lrd", SIGMA_BRACKET, b, joiner="", template=INL_CONTEXTS[1]),
+    ]
+
+
+def mix_space(tier):
+    return ProductSpace(f"B(mix,{4 if tier == 'thorough' else 3})", SIGMA_MIX, 4 if tier == "thorough" else 3)
+
+
 def parser_space(tier, commonmark_only=False):
     """The shared space of the parser-level properties C01-C05."""
     wide = "widecm" if commonmark_only else "wide"
@@ -478,4 +500,5 @@ def parser_space(tier, commonmark_only=False):
         parts = [block_space("core", 4), block_space(wide, 2), ProductSpace("B(mli,3)", SIGMA_MLI, 3)]
         parts += inline_space(4, (0,)).parts
         parts += inline_wide_space(3, (0, 1, 2, 3, 4), commonmark_only)
+    parts += focus_spaces(tier)
     return UnionSpace(f"parser-{tier}", parts)
